@@ -76,6 +76,8 @@ class TokPure(Pure):
                 if isinstance(st, ast.Assign) and len(st.targets) == 1 and is_self(st.targets[0]) \
                         and ast.unparse(st.value) in ("validator", "validator.is_valid"):
                     self.valid_attrs.add(st.targets[0].attr)
+        self.tuple_consts = {n.targets[0].id: n.value for n in cls.body if isinstance(n, ast.Assign) and len(n.targets) == 1 and isinstance(n.targets[0], ast.Name)
+                             and isinstance(n.value, (ast.Tuple, ast.List))}
         self.reads = 0
         self.case_frame = None
         self.in_alt = False
@@ -94,6 +96,14 @@ class TokPure(Pure):
         return cenv
 
     def expr(self, e, env, binds):
+        # class-level tuples / lists of class constants (e.g. the valid modes), read through self or the class, or by bare name
+        # inside such a tuple
+        if isinstance(e, ast.Compare) and len(e.ops) == 1 and isinstance(e.ops[0], (ast.In, ast.NotIn)) and isinstance(e.comparators[0], ast.Attribute) \
+                and isinstance(e.comparators[0].value, ast.Name) and e.comparators[0].value.id in ("self", "StreamTokenizer") and e.comparators[0].attr in self.tuple_consts:
+            lit = ast.Tuple(elts=[self.class_name(x) for x in self.tuple_consts[e.comparators[0].attr].elts], ctx=ast.Load())
+            return self.expr(ast.copy_location(ast.Compare(left=e.left, ops=e.ops, comparators=[ast.copy_location(lit, e)]), e), env, binds)
+        if isinstance(e, ast.Attribute) and isinstance(e.value, ast.Name) and e.value.id in ("self", "StreamTokenizer") and e.attr in self.tuple_consts:
+            return self.expr(ast.copy_location(ast.Tuple(elts=[self.class_name(x) for x in self.tuple_consts[e.attr].elts], ctx=ast.Load()), e), env, binds)
         # class constants: the four automaton states (must be distinct ints, checked by the caller)
         if isinstance(e, ast.Attribute) and isinstance(e.value, ast.Name) and e.value.id in ("self", "StreamTokenizer") and e.attr in ASTATES:
             return V(e.attr, "astate", e.attr, True)
@@ -157,6 +167,14 @@ class TokPure(Pure):
             self.valid_calls += 1
             return V("v", "bool")
         return super().expr(e, env, binds)
+
+    def class_name(self, x):
+        """inside the class body a constant is named bare (NORMAL); elsewhere as StreamTokenizer.NORMAL"""
+        if isinstance(x, ast.Name) and (x.id in self.int_consts or x.id in ASTATES):
+            return ast.copy_location(ast.Attribute(value=ast.Name(id="StreamTokenizer", ctx=ast.Load()), attr=x.id, ctx=ast.Load()), x)
+        if isinstance(x, ast.BinOp):
+            return ast.copy_location(ast.BinOp(left=self.class_name(x.left), op=x.op, right=self.class_name(x.right)), x)
+        return x
 
     IGNORED_WRITES = ("_deliver", "_tokens")     # written by _reinitialize, never read by the automaton methods
 
